@@ -158,7 +158,10 @@ def c01(rep, work, tier, seed):
     need_ok(rep, res, "g3-struct", 0.95)
     for c in first_cases(cases, 1, 4000):
         rep.sample(c)
-    rep.final = dict(rule="random/boundary well-formed sprite programs (G3 'struct'); a case is non-trivial when the specification "
+    resc = corpus_stage(rep, work, b, tier)
+    res["outcomes"][0] += resc["outcomes"][0]
+    rep.final = dict(rule="random/boundary well-formed sprite programs (G3 'struct') and the repository's real Aseprite files (independent decoder -> program; "
+                          "the library loads the original bytes); a case is non-trivial when the specification "
                           "classifies it well-formed (outcome ok) and its full observation is compared field by field by TLC",
                      trusted=TRUSTED)
     rep.cov["distinct_nontrivial"] = res["outcomes"][0]
@@ -387,6 +390,30 @@ def c11(rep, work, tier, seed):
 CHECKS.update({"C09": (c09, "model_checking"), "C10": (c10, "model_checking"), "C11": (c11, "model_checking")})
 
 
+def corpus_stage(rep, work, b, tier):
+    """G4: real Aseprite files. An independent decoder (harness `decode`) turns each file into a chunk program; the library
+    loads the ORIGINAL bytes (hooks on); TLC derives the expected observation from the program and compares."""
+    files = work.path("corpus.files.ndjson")
+    write_cases(files, ({"id": c["id"], "file": c["file"]} for c in corpus_case_lines(10 ** 9)))
+    dec = work.path("corpus.decoded.ndjson")
+    r = subprocess.run([b, "decode", "--in", files, "--out", dec], capture_output=True, text=True)
+    if r.returncode != 0:
+        raise ToolError("decode failed: " + r.stderr[-400:])
+    cap = 120000 if tier == "quick" else 10 ** 9
+    sel = work.path("corpus.sel.ndjson")
+    n = 0
+    with open(sel, "w") as o:
+        for line in open(dec):
+            if len(line) <= cap:
+                o.write(line)
+                n += 1
+    os.remove(dec)
+    res = stage_cases(rep, work, b, sel, "corpus", shards=12, jvms=12)
+    rep.cov["corpus_files"] = n
+    rep.cov["corpus_files_fully_validated"] = res["outcomes"][0]
+    return res
+
+
 def g3_check(pid, profile, nq, nt, rule, extra=None):
     def f(rep, work, tier, seed):
         b = build("dev")
@@ -396,9 +423,11 @@ def g3_check(pid, profile, nq, nt, rule, extra=None):
         need_ok(rep, res, f"g3-{profile}", 0.95)
         rep.sample(first_cases(cases, 1, 6000)[0])
         rep.cov["distinct_nontrivial"] = res["outcomes"][0]
+        resc = corpus_stage(rep, work, b, tier)
+        rep.cov["distinct_nontrivial"] += resc["outcomes"][0]
         if extra:
             extra(rep, work, tier, seed, b)
-        rep.final = dict(rule=rule, trusted=TRUSTED)
+        rep.final = dict(rule=rule + "; plus the repository's real Aseprite files (independent decoder -> program; library loads the original bytes)", trusted=TRUSTED)
     return f
 
 
